@@ -92,3 +92,8 @@ package req
 //@
 //@ func (*context).RecvMsg
 //@   at call:AfterFunc#1 assert c.receiveExpire > 0 && timer_d(result) == c.receiveExpire
+//@
+//@ func (*context).cancelSend
+//@   at call:append#1 assert len(result) == len(at("entry", c.s.sendQ)) - 1
+//@   at call:append#1 assert forall(j, 0, i, result[j] == at("entry", c.s.sendQ)[j])
+//@   at call:append#1 assert forall(j, i, len(result), result[j] == at("entry", c.s.sendQ)[j+1])
